@@ -100,6 +100,20 @@ CHECKS = {
         text=('check_c26 (proved equivalent to "reported = recomputed mod 2^32" per plane and packet) runs on every packet of stat-report encodes: the SSE is recomputed by the driver from the submitted picture and the reconstructed '
               'picture of the same display position (equal to the decoded picture by C01) over sizes that are and are not multiples of 8, four content types, temporal filtering on/off, qp 63 on extreme content, VBR.'),
         note='Arithmetic of the recomputation (64-bit accumulation cannot overflow for any accepted size) is proved; which buffers the library uses is observed. Partial.'),
+    'C04': dict(
+        category='other', design_ref='DESIGN.md §6 C04/C05',
+        technique='Coq theorems for the hand-off structure under all interleavings + metamorphic encodes under seeded schedule perturbation (hook H1)',
+        text=('Proved / imported: a reorder queue releases in numeric order for every arrival order within its window (c04_reorder_confluent, any depth, any stream length), single-consumer FIFOs deliver in posting order under '
+              'every interleaving (C23), every superblock sees the same completed neighbours under every interleaving of EncDec workers (C24). The same encode is run unperturbed and under several perturbation seeds '
+              '(yields / micro-sleeps around every mutex and semaphore operation); packets and recon must be byte-identical and every run must terminate under a watchdog.'),
+        note=('Partial: determinism is proved of the hand-off structure only; data races on shared picture state and the schedules actually reached are exhibited only by the runs. One-pass VBR/CVBR is schedule dependent on the pinned tree '
+              '(known finding D15): the rate-control task queue is a multi-producer FIFO whose consumer does not commute.')),
+    'C05': dict(
+        category='other', design_ref='DESIGN.md §6 C04/C05',
+        technique='Coq theorems (reorder confluence; wavefront for every grid and worker count) + metamorphic encodes across logical-processor counts, pinning and socket',
+        text=('c05_reorder_confluent and the C24 theorems show that what the thread count changes (segment grid, number of workers, arrival order at reorder queues) cannot change which neighbours a superblock sees nor the '
+              'order in which results are released. The same inputs are encoded with logical processors 0,1,2,3,4,8,16, pinned/unpinned and socket 0; packets and recon must be byte-identical.'),
+        note='Partial: whether some coding decision reads the core count or a segment count is observed on the scenarios run (CQP; VBR/CVBR excluded because of finding D15), not proved.'),
 }
 
 NOT_BUILT_REASON = 'check not built yet in this development (work in progress); no claim is made'
